@@ -214,7 +214,7 @@ def gen_case(rng):
 
 
 def run(ctx):
-    total = 3000 if ctx.tier == "quick" else 90000
+    total = 4200 if ctx.tier == "quick" else 150000
     for _ in range(ctx.share(total)):
         if not ctx.time_left():
             break
